@@ -1028,6 +1028,18 @@ func rpFaults(t *testing.T) {
 			}
 			return s.Flush()
 		}},
+		{"Flush of several new items, retried on the same store", true, func(s *Store, c *Collection) error {
+			ff := s.file.(*rpFaulty)
+			at := ff.failAt
+			ff.failAt = -1 // the Sets are not the subject here (a failed Set leaves marks: recorded finding D6)
+			for q := 0; q < 3; q++ {
+				if err := c.Set([]byte(fmt.Sprintf("n%d", q)), bytes.Repeat([]byte{byte('A' + q)}, 40+q)); err != nil {
+					return err
+				}
+			}
+			ff.calls, ff.failAt = 0, at
+			return s.Flush()
+		}},
 		{"FlushRevert", true, func(s *Store, c *Collection) error { return s.FlushRevert() }},
 	}
 	guard := func(f func() error) (err error) {
@@ -1049,6 +1061,19 @@ func rpFaults(t *testing.T) {
 	}
 	bad := func(err error) bool {
 		return err != nil && (strings.HasPrefix(err.Error(), "WRONG") || strings.HasPrefix(err.Error(), "PANIC") || strings.HasPrefix(err.Error(), "HANG"))
+	}
+	// run on the SAME store once the file works again; returns the expected contents
+	retries := map[string]func(s *Store, c *Collection) (string, error){
+		"Flush of several new items, retried on the same store": func(s *Store, c *Collection) (string, error) {
+			want := map[string]string{}
+			for k, v := range model {
+				want[k] = v
+			}
+			for q := 0; q < 3; q++ {
+				want[fmt.Sprintf("n%d", q)] = string(bytes.Repeat([]byte{byte('A' + q)}, 40+q))
+			}
+			return fmt.Sprint(map[string]map[string]string{"x": want}), s.Flush()
+		},
 	}
 	for k := 1; k <= 14; k++ {
 		// a fault while opening: an error and no store, never an older state
@@ -1096,6 +1121,22 @@ func rpFaults(t *testing.T) {
 			}
 			if err == nil {
 				continue // the fault position lies beyond this operation
+			}
+			if retry := retries[op.name]; retry != nil {
+				// C07: "once the file works again, all later operations, including a retried Flush, behave as if
+				// the failed call had never been made" -- retried on the same in-memory store
+				want, rerr := retry(s, c)
+				if rerr != nil {
+					t.Fatalf("%s: the retried Flush after a failure at call #%d failed: %v", op.name, k, rerr)
+				}
+				re, oerr := NewStore(&rpFile{b: append([]byte(nil), ff.b...)})
+				if oerr != nil {
+					t.Fatalf("%s: after the retried Flush (failure at call #%d) the file no longer opens: %v", op.name, k, oerr)
+				}
+				if got := fmt.Sprint(rpContents(t, re)); got != want {
+					t.Fatalf("%s: after a failure at call #%d and a successful retry the re-opened file holds %v, want %v", op.name, k, got, want)
+				}
+				continue
 			}
 			// a failed mutation / Flush / FlushRevert: the durable states in the file are intact. (The in-memory
 			// store is re-opened before going on: reclaim marks left by a failed mutation are the recorded finding D6.)
